@@ -336,10 +336,22 @@ func c08NewTimingCU() *c08TimingCUT {
 	return &c08TimingCUT{cu: c, disp: cu.NewWfDispatcher(c)}
 }
 
-func (t *c08TimingCUT) regs(wf *kernels.Wavefront, simd, voff, soff int) c08LaneRegs {
+func (t *c08TimingCUT) regs(wf *kernels.Wavefront, simd, voff, soff, npoison int) c08LaneRegs {
 	var o c08LaneRegs
 	twf := wavefront.NewWavefront(wf)
 	twf.WG = wavefront.NewWorkGroup(wf.WG, nil)
+	// the id registers the dispatcher has to initialise hold stale values of an earlier occupant
+	// (hardware gives no guarantee about them): every lane of v0..v<npoison-1>
+	poison := []byte{0xa5, 0x5a, 0xc3, 0x3c}
+	for l := 0; l < 64; l++ {
+		for k := 0; k < 3; k++ {
+			d := poison
+			if k >= npoison {
+				d = []byte{0, 0, 0, 0} // not the dispatcher's to write: known clean
+			}
+			t.cu.VRegFile[simd].Write(cu.RegisterAccess{Reg: insts.VReg(k), RegCount: 1, LaneID: l, WaveOffset: voff, Data: d})
+		}
+	}
 	t.disp.DispatchWf(twf, protocol.WfDispatchLocation{Wavefront: wf, SIMDID: simd, VGPROffset: voff, SGPROffset: soff})
 	buf := make([]byte, 4)
 	for l := 0; l < 64; l++ {
@@ -460,7 +472,11 @@ func c08WG(r *Run, rng *Rng, w, c, id c08Geo, v5 bool, en int) {
 		simd, voff, soff := rng.Intn(2), 4*rng.Intn(200), 4*rng.Intn(3000)
 		for _, wf := range wg.Wavefronts {
 			eregs = append(eregs, c08EmuRegs(wf))
-			tregs = append(tregs, c08TimingCU.regs(wf, simd, voff, soff))
+			np := en + 1 // registers the code object enables: v0..v<en>
+			if v5 {
+				np = 1 // packed ids live in v0
+			}
+			tregs = append(tregs, c08TimingCU.regs(wf, simd, voff, soff, np))
 		}
 	})
 	if fault != "" {
@@ -573,7 +589,11 @@ func c08Grid(r *Run, g, w c08Geo, v5 bool, timing bool) {
 			for _, wf := range wg.Wavefronts {
 				var lr c08LaneRegs
 				if timing {
-					lr = c08TimingCU.regs(wf, 0, 0, 0)
+					np := 3 // this code object enables all three id registers
+					if v5 {
+						np = 1
+					}
+					lr = c08TimingCU.regs(wf, 0, 0, 0, np)
 				} else {
 					lr = c08EmuRegs(wf)
 				}
